@@ -142,8 +142,9 @@ def run_workers(items, configs):
         json.dump(items, open(wl, "w"))
         procs = []
         for hs, os_ in configs:
-            env = dict(os.environ, PYTHONHASHSEED=str(hs))
-            procs.append(subprocess.Popen(["/venv/bin/python", os.path.join(HERE, "c14_worker.py"), wl, str(os_), gen.REPO],
+            env = dict(os.environ, PYTHONHASHSEED=str(abs(hs)))
+            flags = ["-O"] if hs < 0 else []          # a negative "seed" = an optimized interpreter (assert statements stripped)
+            procs.append(subprocess.Popen(["/venv/bin/python", *flags, os.path.join(HERE, "c14_worker.py"), wl, str(os_), gen.REPO],
                                           stdout=subprocess.PIPE, stderr=subprocess.PIPE, text=True, env=env))
         outs = []
         for p in procs:
@@ -298,7 +299,7 @@ def c14(out, tier, rng):
         out.design("MC_Threads", thr_cfg("{1, 2}", "OpsCanon2", "local", "argument", "fresh", 6, "Chain"), must_fail="SameAsSequential", label="control: partition written in place")
         out.design("MC_Threads", thr_cfg("{1, 2}", "OpsParse2", "local", "copy", "shared", 3, "Water"), must_fail="SameAsSequential", label="control: shared parser state")
     items = c14_workload(rng, tier)
-    configs = [(hs, rng.randrange(10**6)) for hs in ([0, 1, 2, 3, 4, 5, 6, 7] if tier == "quick" else list(range(0, 32)))]
+    configs = [(hs, rng.randrange(10**6)) for hs in ([0, 1, 2, 3, 4, 5, 6, -7] if tier == "quick" else list(range(0, 30)) + [-30, -31])]
     runs = run_workers(items, configs)
     runs += threaded_results(items, 4 if tier == "quick" else 8, rng)
     sched_res = scheduled_results(rng, tier, out)
@@ -324,7 +325,7 @@ def c14(out, tier, rng):
     out.evaluations = sum(len(r) for r in runs) + len(sched_res)
     for it in items:
         out.count(("c14", it["key"]), nontrivial=True)
-    out.extra.update({"processes": len(configs), "hash_seeds": [c[0] for c in configs], "workload_items": len(items),
+    out.extra.update({"processes": len(configs), "hash_seeds": [abs(c[0]) for c in configs], "optimized_interpreters": sum(1 for c in configs if c[0] < 0), "workload_items": len(items),
                       "schedules_run": len([r for r in sched_res if r["sched"] != "sequential"])})
     out.sample({"workload_keys": [it["key"] for it in items[:5]], "schedule": sched_res[0]["sched"] if sched_res else None})
     validate_sessions(out, ss, "C14:", rl=0)
